@@ -92,11 +92,87 @@ Proof.
   constructor; [lia|]. eapply Forall_impl; [|exact IH]. cbn. intros; lia.
 Qed.
 
+(* the root the writer stores parses back to itself (so the reader starts from d_root) *)
+Lemma pointer_entry_ok x : snd (snd x) < two64 -> fst (snd x) + 1 < two64 -> fst (snd x) + snd (snd x) < two64 ->
+  (match fst x with e :: _ => e_id e < two64 | [] => True end) -> entry_ok (pointer x).
+Proof.
+  intros H1 H2 H3 H4. unfold entry_ok, pointer. cbn [e_id e_run e_len e_off].
+  split; [destruct (fst x); [unfold two64; lia|exact H4]|]. split; [lia|]. split; [exact H1|]. split; [exact H2|exact H3].
+Qed.
+
+Lemma concat_length_le {A} (ls : list (list A)) : Forall (fun l => l <> []) ls -> (length ls <= length (concat ls))%nat.
+Proof.
+  induction ls as [|l r IH]; intros H; [cbn; lia|]. inversion H as [|? ? Hl Hr]; subst. cbn [concat length]. rewrite app_length.
+  specialize (IH Hr). destruct l; [congruence|cbn [length]; lia].
+Qed.
+
+Lemma place_bounds_gen (f : list entry -> bytes) : forall ls off,
+  Forall (fun x => fst (snd x) + snd (snd x) <= off + N.of_nat (length (flat_map (fun x => f (fst x)) (place_leaves (fun l => N.of_nat (length (f l))) off ls))))
+         (place_leaves (fun l => N.of_nat (length (f l))) off ls).
+Proof.
+  induction ls as [|l r IH]; intros off; [constructor|]. cbn [place_leaves flat_map fst]. rewrite app_length, Nat2N.inj_add.
+  constructor; [cbn [fst snd]; lia|].
+  eapply Forall_impl; [|exact (IH (off + N.of_nat (length (f l))))]. cbn beta. intros x Hx. lia.
+Qed.
+
 (* ---------- the written tree is a stored tree ---------- *)
 Section Enc.
   Variables (enc : bytes -> bytes) (dec : bytes -> option bytes).
   Hypothesis Hdec : forall b, dec (enc b) = Some b.
   Hypothesis Henc_ne : forall l : list entry, enc (serialize l) <> [].
+
+  (* whatever function hands back each placed leaf at its pointer: the written root is a stored tree *)
+  Lemma writer_tree_stored_leaf (leaf : N -> N -> outcome (list entry)) k es :
+    (0 < k)%nat -> Forall (fun e => 0 < e_len e /\ 0 < e_run e) es ->
+    let d := build_roots_leaves_enc enc k es in
+    (forall x, In x (d_leaves d) -> leaf (fst (snd x)) (snd (snd x)) = Ok (fst x)) ->
+    stored 1 leaf (d_root d) es.
+  Proof.
+    intros Hk Hpos d Hleaf. right. unfold d, build_roots_leaves_enc in *. cbn [d_root d_leaves] in *.
+    set (cut := cut_leaves (length es) k es) in *.
+    assert (Hcat : concat cut = es) by (apply cut_concat; [exact Hk|lia]).
+    set (placed := place_leaves (stored_size enc) 0 cut) in *.
+    assert (Hfst : map fst placed = cut) by apply place_fst.
+    exists (map (fun x => (x, fst x)) placed).
+    assert (Hm1 : map fst (map (fun x : list entry * (N * N) => (x, fst x)) placed) = placed).
+    { rewrite map_map. cbn [fst]. apply map_id. }
+    rewrite Hm1. split; [rewrite Hfst; symmetry; exact Hcat|]. split; [apply pointer_root_of|].
+    pose proof (place_sizes (stored_bytes enc) Henc_ne cut 0) as Hsz.
+    change (fun l : list entry => N.of_nat (length (stored_bytes enc l))) with (stored_size enc) in Hsz. fold placed in Hsz.
+    pose proof (cut_nonempty k Hk (length es) es) as Hne. fold cut in Hne. rewrite <- Hfst in Hne.
+    assert (Hpos' : Forall (Forall (fun e => 0 < e_len e /\ 0 < e_run e)) cut) by (apply In_concat_Forall; rewrite Hcat; exact Hpos).
+    rewrite <- Hfst in Hpos'. rewrite Forall_map in Hne, Hpos'.
+    rewrite Forall_map. rewrite Forall_forall in *.
+    intros x Hx. cbn [fst snd]. split; [split; [exact (Hne x Hx)|exact (Hsz x Hx)]|]. split; [exact (Hleaf x Hx)|].
+    left. split; [reflexivity|exact (Hpos' x Hx)].
+  Qed.
+
+  (* each placed leaf, read at its pointer from the leaves section and decompressed, parses back *)
+  Lemma placed_leaf_bytes k es : (0 < k)%nat -> runs_ok es -> Forall entry_ok es -> N.of_nat (length es) <= 10000000000 ->
+    let d := build_roots_leaves_enc enc k es in
+    forall x, In x (d_leaves d) ->
+      sub (d_leaves_bytes d) (fst (snd x)) (snd (snd x)) = enc (serialize (fst x)) /\
+      fst (snd x) + snd (snd x) <= N.of_nat (length (d_leaves_bytes d)) /\
+      forall av, deserialize av (serialize (fst x)) = Ok (fst x).
+  Proof.
+    intros Hk Hr Hok Hn d x Hx. unfold d, build_roots_leaves_enc in *. cbn [d_leaves d_leaves_bytes] in *.
+    set (cut := cut_leaves (length es) k es) in *.
+    assert (Hcat : concat cut = es) by (apply cut_concat; [exact Hk|lia]).
+    set (placed := place_leaves (stored_size enc) 0 cut) in *.
+    assert (Hfst : map fst placed = cut) by apply place_fst.
+    pose proof (place_bytes (stored_bytes enc) cut 0 [] eq_refl) as Hbytes. cbn [app] in Hbytes.
+    change (fun l : list entry => N.of_nat (length (stored_bytes enc l))) with (stored_size enc) in Hbytes. fold placed in Hbytes.
+    pose proof (place_bounds_gen (stored_bytes enc) cut 0) as Hbd.
+    change (fun l : list entry => N.of_nat (length (stored_bytes enc l))) with (stored_size enc) in Hbd. fold placed in Hbd.
+    assert (Hok' : Forall (Forall entry_ok) cut) by (apply In_concat_Forall; rewrite Hcat; exact Hok).
+    assert (Hr' : Forall runs_ok cut) by (apply runs_ok_parts; rewrite Hcat; exact Hr).
+    assert (Hlen' : Forall (fun l => (length l <= length es)%nat) cut) by (rewrite <- Hcat; apply parts_length).
+    rewrite <- Hfst in Hok', Hr', Hlen'. rewrite Forall_map in Hok', Hr', Hlen'. rewrite Forall_forall in *.
+    split; [exact (Hbytes x Hx)|]. split; [specialize (Hbd x Hx); lia|].
+    intros av. apply (deserialize_serialize av []); [exact (Hok' x Hx)| |].
+    - apply runs_ok_nondec; [exact (Hr' x Hx)|]. destruct (fst x); [exact I|lia].
+    - specialize (Hlen' x Hx). lia.
+  Qed.
 
   Theorem writer_tree_stored_enc av k es :
     (0 < k)%nat -> runs_ok es -> Forall entry_ok es -> Forall (fun e => 0 < e_len e /\ 0 < e_run e) es ->
@@ -104,34 +180,9 @@ Section Enc.
     let d := build_roots_leaves_enc enc k es in
     stored 1 (read_leaf_dec dec av (d_leaves_bytes d)) (d_root d) es.
   Proof.
-    intros Hk Hr Hok Hpos Hn d. right.
-    set (cut := cut_leaves (length es) k es).
-    assert (Hcat : concat cut = es) by (apply cut_concat; [exact Hk|lia]).
-    set (placed := place_leaves (stored_size enc) 0 cut).
-    assert (Hfst : map fst placed = cut) by apply place_fst.
-    exists (map (fun x => (x, fst x)) placed).
-    assert (Hm1 : map fst (map (fun x : list entry * (N * N) => (x, fst x)) placed) = placed).
-    { rewrite map_map. cbn [fst]. apply map_id. }
-    rewrite Hm1. split; [rewrite Hfst; symmetry; exact Hcat|]. split; [apply pointer_root_of|].
-    pose proof (place_bytes (stored_bytes enc) cut 0 [] eq_refl) as Hbytes. cbn [app] in Hbytes.
-    change (fun l : list entry => N.of_nat (length (stored_bytes enc l))) with (stored_size enc) in Hbytes. fold placed in Hbytes.
-    pose proof (place_sizes (stored_bytes enc) Henc_ne cut 0) as Hsz.
-    change (fun l : list entry => N.of_nat (length (stored_bytes enc l))) with (stored_size enc) in Hsz. fold placed in Hsz.
-    pose proof (cut_nonempty k Hk (length es) es) as Hne. fold cut in Hne. rewrite <- Hfst in Hne.
-    assert (Hok' : Forall (Forall entry_ok) cut) by (apply In_concat_Forall; rewrite Hcat; exact Hok).
-    assert (Hpos' : Forall (Forall (fun e => 0 < e_len e /\ 0 < e_run e)) cut) by (apply In_concat_Forall; rewrite Hcat; exact Hpos).
-    assert (Hr' : Forall runs_ok cut) by (apply runs_ok_parts; rewrite Hcat; exact Hr).
-    assert (Hlen' : Forall (fun l => (length l <= length es)%nat) cut).
-    { rewrite <- Hcat. apply parts_length. }
-    rewrite <- Hfst in Hok', Hpos', Hr', Hlen'.
-    rewrite Forall_map in Hne, Hok', Hpos', Hr', Hlen'.
-    rewrite Forall_map. rewrite Forall_forall in *.
-    intros x Hx. cbn [fst snd]. split; [split; [exact (Hne x Hx)|exact (Hsz x Hx)]|]. split.
-    - unfold read_leaf_dec. unfold d, build_roots_leaves_enc. cbn [d_leaves_bytes]. fold cut. fold placed.
-      rewrite (Hbytes x Hx). unfold stored_bytes. rewrite Hdec. apply (deserialize_serialize av []); [exact (Hok' x Hx)| |].
-      + apply runs_ok_nondec; [exact (Hr' x Hx)|]. destruct (fst x); [exact I|lia].
-      + specialize (Hlen' x Hx). lia.
-    - left. split; [reflexivity|exact (Hpos' x Hx)].
+    intros Hk Hr Hok Hpos Hn d. apply writer_tree_stored_leaf; [exact Hk|exact Hpos|].
+    intros x Hx. destruct (placed_leaf_bytes k es Hk Hr Hok Hn x Hx) as (Hb & _ & Hd).
+    unfold read_leaf_dec. fold d in Hb. rewrite Hb, Hdec. apply Hd.
   Qed.
 
   Theorem writer_tree_lookup_enc av k es extra :
@@ -143,6 +194,36 @@ Section Enc.
   Proof.
     intros Hk Hr Hok Hpos Hn d e t Hin Ht.
     exact (multi_level_lookup av _ 1 _ es (writer_tree_stored_enc av k es Hk Hr Hok Hpos Hn) Hr e t Hin Ht extra).
+  Qed.
+  Theorem writer_root_parses_enc av k es :
+    (0 < k)%nat -> runs_ok es -> Forall entry_ok es -> N.of_nat (length es) <= 10000000000 ->
+    let d := build_roots_leaves_enc enc k es in
+    N.of_nat (length (d_leaves_bytes d)) + 1 < two64 ->
+    deserialize av (serialize (d_root d)) = Ok (d_root d).
+  Proof.
+    intros Hk Hr Hok Hn d Hb. unfold d, build_roots_leaves_enc in *. cbn [d_root d_leaves_bytes] in *.
+    set (cut := cut_leaves (length es) k es) in *.
+    assert (Hcat : concat cut = es) by (apply cut_concat; [exact Hk|lia]).
+    set (placed := place_leaves (stored_size enc) 0 cut) in *.
+    assert (Hfst : map fst placed = cut) by apply place_fst.
+    pose proof (place_sizes (stored_bytes enc) Henc_ne cut 0) as Hsz.
+    change (fun l : list entry => N.of_nat (length (stored_bytes enc l))) with (stored_size enc) in Hsz. fold placed in Hsz.
+    pose proof (place_bounds_gen (stored_bytes enc) cut 0) as Hbd.
+    change (fun l : list entry => N.of_nat (length (stored_bytes enc l))) with (stored_size enc) in Hbd. fold placed in Hbd.
+    pose proof (cut_nonempty k Hk (length es) es) as Hne. fold cut in Hne. rewrite <- Hfst in Hne. rewrite Forall_map in Hne.
+    assert (Hok' : Forall (Forall entry_ok) cut) by (apply In_concat_Forall; rewrite Hcat; exact Hok).
+    rewrite <- Hfst in Hok'. rewrite Forall_map in Hok'.
+    apply (deserialize_serialize av []).
+    - rewrite Forall_map. rewrite Forall_forall in *. intros x Hx. specialize (Hbd x Hx). specialize (Hsz x Hx).
+      apply pointer_entry_ok; try lia.
+      specialize (Hok' x Hx). destruct (fst x) as [|e ?]; [exact I|]. apply Forall_inv in Hok'. exact (proj1 Hok').
+    - rewrite pointer_root_of. apply runs_ok_nondec; [|destruct (root_of placed); [exact I|lia]].
+      apply root_runs_ok; [rewrite Hfst, Hcat; exact Hr|].
+      rewrite Forall_forall in *. intros x Hx. split; [exact (Hne x Hx)|exact (Hsz x Hx)].
+    - rewrite map_length.
+      assert (Hlen : (length placed <= length es)%nat).
+      { rewrite <- (map_length fst placed), <- Hcat, <- Hfst. apply concat_length_le. rewrite Forall_map. exact Hne. }
+      lia.
   Qed.
 End Enc.
 
@@ -207,13 +288,6 @@ Proof.
     rewrite Forall_forall in Hks. exact (writer_tree_lookup av k es extra (Hks k Hk) Hr Hok Hpos Hn e t Hin Ht).
 Qed.
 
-(* the root the writer stores parses back to itself (so the reader starts from d_root) *)
-Lemma pointer_entry_ok x : snd (snd x) < two64 -> fst (snd x) + 1 < two64 -> fst (snd x) + snd (snd x) < two64 ->
-  (match fst x with e :: _ => e_id e < two64 | [] => True end) -> entry_ok (pointer x).
-Proof.
-  intros H1 H2 H3 H4. unfold entry_ok, pointer. cbn [e_id e_run e_len e_off].
-  split; [destruct (fst x); [unfold two64; lia|exact H4]|]. split; [lia|]. split; [exact H1|]. split; [exact H2|exact H3].
-Qed.
 
 Lemma place_sizes_id : forall ls off, Forall (fun x => 0 < snd (snd x)) (place_leaves ser_size off ls).
 Proof. induction ls as [|l r IH]; intros off; [constructor|]. cbn [place_leaves]. constructor; [apply serialize_nonempty|apply IH]. Qed.
@@ -227,11 +301,6 @@ Proof.
   eapply Forall_impl; [|exact (IH (off + ser_size l))]. cbn beta. intros x Hx. unfold ser_size, stored_size, stored_bytes in *. lia.
 Qed.
 
-Lemma concat_length_le {A} (ls : list (list A)) : Forall (fun l => l <> []) ls -> (length ls <= length (concat ls))%nat.
-Proof.
-  induction ls as [|l r IH]; intros H; [cbn; lia|]. inversion H as [|? ? Hl Hr]; subst. cbn [concat length]. rewrite app_length.
-  specialize (IH Hr). destruct l; [congruence|cbn [length]; lia].
-Qed.
 
 Theorem writer_root_parses av k es :
   (0 < k)%nat -> runs_ok es -> Forall entry_ok es -> N.of_nat (length es) <= 10000000000 ->
